@@ -22,11 +22,12 @@ import (
 )
 
 type hnswCmd struct {
-	Op      string   `json:"op"` // add | remove | flush | search | graph | reach
+	Op      string   `json:"op"` // add | remove | removehood | flush | search | graph | reach
 	ID      uint32   `json:"id,omitempty"`
 	Vec     []uint32 `json:"vec,omitempty"`
 	Level   int      `json:"level"`            // add: the level handed to randomLevel's hook (-1: the implementation draws)
-	Target  string   `json:"target,omitempty"` // remove: id | entry | toplevel | indegree | nth ; add: readd (a tombstoned id)
+	Target  string   `json:"target,omitempty"` // remove: id | entry | toplevel | indegree | nth ; add: readd (a tombstoned id) ; search: entryvec (query = the entry point's stored vector)
+	Depth   int      `json:"depth,omitempty"`  // removehood: the entry point plus its layer-0 neighbours (1) plus theirs (2)
 	R       int      `json:"r,omitempty"`
 	K       int      `json:"k,omitempty"`
 	ThrMode int      `json:"thr_mode,omitempty"`
@@ -36,15 +37,15 @@ type hnswCmd struct {
 }
 
 type hnswCase struct {
-	Dim    int       `json:"dim"`
-	Metric string    `json:"metric"`
-	M      int       `json:"m"`
-	EfC    int       `json:"efc"`
-	EfS    int       `json:"efs"`
-	Data   string    `json:"data"` // gauss | dup | cluster (documentation of the generator used)
+	Dim    int    `json:"dim"`
+	Metric string `json:"metric"`
+	M      int    `json:"m"`
+	EfC    int    `json:"efc"`
+	EfS    int    `json:"efs"`
+	Data   string `json:"data"` // gauss | dup | cluster (documentation of the generator used)
 	// NoEntry: removals never aim at the current entry point (keeps the case outside known finding D2)
-	NoEntry bool `json:"no_entry,omitempty"`
-	Cmds   []hnswCmd `json:"cmds"`
+	NoEntry bool      `json:"no_entry,omitempty"`
+	Cmds    []hnswCmd `json:"cmds"`
 }
 
 type hnswGen struct {
@@ -64,6 +65,19 @@ func (g *hnswGen) vec() []float32 {
 	case "gauss":
 		for i := range v {
 			v[i] = float32(r.Norm() * g.scale)
+		}
+	case "line":
+		// points along a line in low dimension (sparse graphs: few long-range links)
+		g.cur++
+		pos := float64(g.cur)
+		if g.r.Chance(0.3) {
+			pos = float64(g.r.Range(0, 4*g.cur+4))
+		}
+		for i := range v {
+			v[i] = float32((pos*float64(i+1) + r.Norm()*0.01) * g.scale)
+		}
+		if g.r.Chance(0.5) {
+			v[0] = float32(pos * g.scale) // exactly on the lattice in the first coordinate
 		}
 	case "cluster":
 		if len(g.centers) == 0 {
@@ -131,7 +145,18 @@ func genHNSW(r *core.Rand, tier string) *hnswCase {
 		M = r.Range(2, 32)
 	}
 	c := &hnswCase{Dim: dim, Metric: metrics[r.Intn(3)], M: M}
-	c.Data = []string{"gauss", "gauss", "gauss", "dup", "cluster"}[r.Intn(5)]
+	c.Data = []string{"gauss", "gauss", "gauss", "dup", "cluster", "line"}[r.Intn(6)]
+	if c.Data == "line" {
+		dim = 1 + r.Intn(3)
+		c.Dim = dim
+		if c.Metric == "cosine" && dim == 1 {
+			c.Metric = "l2"
+		}
+		if r.Chance(0.7) {
+			M = r.Range(2, 4)
+			c.M = M
+		}
+	}
 	g := &hnswGen{r: r, dim: dim, data: c.Data, scale: math.Pow(10, float64(r.Range(-2, 2)))}
 
 	// size class: "small" keeps at most 2M+1 (sometimes a few more) resident vertices
@@ -332,6 +357,30 @@ func genHNSW(r *core.Rand, tier string) *hnswCase {
 			}
 		}
 	}
+	// adversarial pattern: the current entry point plus ALL its layer-0 neighbours (small M:
+	// plus theirs), resolved against the implementation's exported graph, no Flush, then
+	// searches (one from the entry point's own position) and a reachability check
+	hood := func() {
+		depth := 1
+		if M <= 4 && r.Chance(0.5) {
+			depth = 2
+		}
+		c.Cmds = append(c.Cmds, hnswCmd{Op: "removehood", Depth: depth})
+		es := search()
+		es.Target, es.Filter, es.Thr, es.ThrMode = "entryvec", nil, 0, 0
+		c.Cmds = append(c.Cmds, es, search(), hnswCmd{Op: "reach"})
+		if r.Chance(0.5) {
+			es2 := search()
+			es2.Target, es2.Filter, es2.Thr, es2.ThrMode, es2.K = "entryvec", nil, 0, 0, 1
+			c.Cmds = append(c.Cmds, es2)
+		}
+	}
+	if !c.NoEntry && !small && (r.Chance(0.5) || c.Data == "line") {
+		hood()
+		if r.Chance(0.3) {
+			hood() // a second ring: the tombstoned entry point stays, its live neighbourhood is gone
+		}
+	}
 	// tail: removals of adversarial targets with searches, a flush, final checks
 	if r.Chance(0.5) {
 		for j := r.Range(1, 3); j > 0; j-- {
@@ -509,6 +558,46 @@ func resolveTarget(idx *comet.HNSWIndex, cmd hnswCmd, added []uint32, avoidEntry
 	return cmd.ID + 1000000
 }
 
+// hnswHood returns the current entry point and the not yet soft-deleted vertices within
+// `depth` layer-0 hops of it (the entry point first), read from the exported graph.
+func hnswHood(idx *comet.HNSWIndex, depth int) []uint32 {
+	entry, _, resident, _ := idx.VerifHNSWMeta()
+	if resident == 0 {
+		return nil
+	}
+	adj := map[uint32][]uint32{}
+	dead := map[uint32]bool{}
+	idx.VerifHNSWVisit(func(key, id uint32, level int, deleted bool, edges [][]uint32) {
+		if len(edges) > 0 {
+			adj[key] = append([]uint32(nil), edges[0]...)
+		}
+		dead[key] = deleted
+	})
+	seen := map[uint32]bool{entry: true}
+	order := []uint32{entry}
+	frontier := []uint32{entry}
+	for d := 0; d < depth; d++ {
+		var next []uint32
+		for _, u := range frontier {
+			for _, w := range adj[u] {
+				if !seen[w] {
+					seen[w] = true
+					order = append(order, w)
+					next = append(next, w)
+				}
+			}
+		}
+		frontier = next
+	}
+	var out []uint32
+	for _, id := range order {
+		if !dead[id] {
+			out = append(out, id)
+		}
+	}
+	return out
+}
+
 func execHNSW(c *hnswCase) []string {
 	lines := []string{fmt.Sprintf("begin hnsw %d %s %d %d %d", c.Dim, c.Metric, c.M, c.EfC, c.EfS)}
 	idx, err := comet.NewHNSWIndex(c.Dim, comet.DistanceKind(c.Metric), c.M, c.EfC, c.EfS)
@@ -546,6 +635,11 @@ func execHNSW(c *hnswCase) []string {
 			id := resolveTarget(idx, cmd, added, c.NoEntry)
 			err := idx.Remove(*comet.NewVectorNodeWithID(id, nil))
 			lines = append(lines, fmt.Sprintf("op remove %d => %s%s", id, vecErr(err), sn.tail(idx)))
+		case "removehood":
+			for _, id := range hnswHood(idx, cmd.Depth) {
+				err := idx.Remove(*comet.NewVectorNodeWithID(id, nil))
+				lines = append(lines, fmt.Sprintf("op remove %d => %s%s", id, vecErr(err), sn.tail(idx)))
+			}
 		case "flush":
 			err := idx.Flush()
 			lines = append(lines, "op flush => "+vecErr(err)+sn.tail(idx))
@@ -555,6 +649,13 @@ func execHNSW(c *hnswCase) []string {
 			lines = append(lines, "op reach =>")
 		case "search":
 			q := core.FromBits(cmd.Vec)
+			if cmd.Target == "entryvec" {
+				if e, _, n, _ := idx.VerifHNSWMeta(); n > 0 {
+					if ev, ok := idx.VerifHNSWVector(e); ok && len(ev) == len(q) {
+						q = ev
+					}
+				}
+			}
 			thr := math.Float32frombits(cmd.Thr)
 			if cmd.ThrMode != 0 {
 				probe, err := idx.NewSearch().WithQuery(append([]float32(nil), q...)).WithK(0).Execute()
@@ -608,7 +709,7 @@ func nonTrivialHNSW(lines, replies []string) bool {
 func init() {
 	register(&core.Typed[hnswCase]{
 		StreamName: "hnsw", Prop: "C12",
-		RuleText: "Add/Remove/Flush histories on a real HNSWIndex (M 2..32, efConstruction/efSearch from M to 4n (capped at 512 in the cases with more than 600 vertices), dims 1..32, 3 metrics; Gaussian, clustered and duplicate-heavy data; distinct ids; removal targets resolved against the implementation: current entry point, highest level, highest layer-0 in-degree, random, absent); after every op the exported graph must equal the model's; a case is non-trivial when at least 3 additions with >= 3 resident vertices matched the model's graph exactly AND some search returned a non-empty answer that the model reproduced (and, in the small regime, the flat specification confirmed as exact) AND no known finding was hit; distinct = distinct request streams",
+		RuleText: "Add/Remove/Flush histories on a real HNSWIndex (M 2..32, efConstruction/efSearch from M to 4n (capped at 512 in the cases with more than 600 vertices), dims 1..32, 3 metrics; Gaussian, clustered, duplicate-heavy and line-like low-dimensional data; distinct ids; removal targets resolved against the implementation: current entry point, highest level, highest layer-0 in-degree, random, absent; and the pattern 'entry point plus all its layer-0 neighbours (small M: plus theirs), no Flush, then searches from the entry point's own position'); after every op the exported graph must equal the model's; a case is non-trivial when at least 3 additions with >= 3 resident vertices matched the model's graph exactly AND some search returned a non-empty answer that the model reproduced (and, in the small regime, the flat specification confirmed as exact) AND no known finding was hit; distinct = distinct request streams",
 		NCases: func(tier string) int {
 			if tier == "thorough" {
 				return 2500
